@@ -13,6 +13,13 @@ Open Scope string_scope.
                   sv_checks sv = direct_checks o,  sv_reflect sv = serve_reflect F byval f o (what the owner does after a
                   NotImplemented: nothing, or on a tree with f_reflects the operand's reflected method against the target)
         or route ms o = RNoMethod and neither the class nor BaseNetref defines the special method (the interpreter answers). *)
+(*    SCOPE (what `direct` is): for a special method d other than the comparisons, repr/str/hash/dir, __call__ and __exit__, `direct`
+      is ACallAttr d = getattr(obj, d)( *args) -- the bound-method call on the INSTANCE, which is also what _handle_callattr does.
+      The interpreter itself dispatches through the TYPE's slot (type(obj).d(obj, *args)) without any attribute lookup on the instance;
+      the two coincide exactly for objects that do not shadow the special name in their instance namespace and whose type does not
+      observe attribute lookups (__getattribute__/__getattr__ with effects).  For other objects this theorem compares the code with
+      the same reading of the operation, not with the interpreter: see known findings special-method:looked-up-on-the-instance
+      (harness/C02.py; the differential run has both kinds of targets). *)
 Theorem c02_routing_faithful : forall F A (f : nat -> A) (truthy byval : A -> bool) ms o,
   forwarded o = true -> well_formed o = true -> exit_ok F (truthy (f 0%nat)) o = true -> faithful F A f truthy byval ms o.
 Proof. exact routing_faithful. Qed.
@@ -82,6 +89,24 @@ Theorem c02_exit_refuted : forall F ms A (f : nat -> A) truthy byval, f_ctxexit_
     /\ sv_act sv = AExit TTypeError /\ direct truthy f (OSpecial "__exit__" 3 []) = AExit (TClass (f 0%nat)).
 Proof. exact exit_refuted. Qed.
 Print Assumptions c02_exit_refuted.
+(* 2b'. on a tree whose handler guards its `raise` with `except Exception` (step_ok's exit_class_ok excludes this), an exception
+        outside Exception raised in the with block -- KeyboardInterrupt, SystemExit, GeneratorExit: OtherError in the model's
+        enumeration -- escapes the handler: the request fails with it and the target's __exit__ is never called *)
+Theorem c02_exit_base_exception_refuted : forall F, f_ctxexit_delivers F = true -> f_ctxexit_base F = false ->
+  let tw := {| tw_heap := []; tw_slots := [0%nat] |} in
+  let pw := {| pw_heap := []; pw_exported := [0%nat]; pw_slots := [0%nat] |} in
+  option_map (fun x => (fst x, tw_heap _ (snd x)))
+             (t_run unit (fun _ => true) (fun _ => false) (fun _ => tt) _ w_apply_log (fun _ => ["__exit__"]) (fun _ => TypeError) tw [w_step_exit_base])
+    = Some ([Ok (VImm unit tt)], [TClass (VExc unit OtherError)]) /\
+  option_map (fun x => (fst x, pw_heap _ (snd x)))
+             (p_run unit (fun _ => true) (fun _ => false) (fun _ => tt) _ w_apply_log (fun _ => ["__exit__"]) (fun _ => TypeError) conf_classic F pw [w_step_exit_base])
+    = Some ([Raise OtherError], []).
+Proof. exact exit_skipped_for_base_exceptions. Qed.
+Print Assumptions c02_exit_base_exception_refuted.
+Theorem c02_exit_base_exception_covered_when_repaired : forall F, f_ctxexit_delivers F = true -> f_ctxexit_base F = true ->
+  step_ok unit (fun _ => true) conf_classic F w_step_exit_base = true.
+Proof. exact exit_kept_for_base_exceptions. Qed.
+Print Assumptions c02_exit_base_exception_covered_when_repaired.
 (* 2c. on a tree whose __getattr__ asks again (the pinned tree), a read that fails with AttributeError runs twice on the target *)
 Theorem c02_failing_read_refuted : forall F, f_getattr_repeats F = true ->
   let tw := {| tw_heap := 0%nat; tw_slots := [0%nat] |} in
@@ -178,11 +203,14 @@ Print Assumptions c02_instancecheck_unknown_class_when_repaired.
 (* 3. buffered iteration yields exactly the target's items in order and exhausts the target's iterator, for every
       chunk, factor, max_chunk >= 1; the counts requested are chunk, min(chunk*factor, max_chunk), ... ; at most one request
       more than there are items *)
-Theorem c02_buffiter : forall A chunk maxc factor (xs : list A), (1 <= chunk)%Z -> (1 <= factor)%Z -> (1 <= maxc)%Z ->
+(*    SCOPE: the target's iterator is a list of remaining items that never raises (islice cannot fail).  For an iterator that raises
+      after some items the items already taken into the current batch are lost (the whole request fails): not covered here, found by
+      the differential run (known finding buffiter:items-before-a-failure-are-lost); hence _partial. *)
+Theorem c02_buffiter_partial : forall A chunk maxc factor (xs : list A), (1 <= chunk)%Z -> (1 <= factor)%Z -> (1 <= maxc)%Z ->
   exists cs, buffiter A chunk maxc factor xs = Ok (xs, [], cs) /\ schedule chunk factor maxc cs
              /\ Forall (fun c => (1 <= c)%Z) cs /\ (List.length cs <= S (List.length xs))%nat.
 Proof. exact buffiter_exact. Qed.
-Print Assumptions c02_buffiter.
+Print Assumptions c02_buffiter_partial.
 Theorem c02_buffiter_rejects_factor_below_one : forall A chunk maxc factor (xs : list A), (factor < 1)%Z ->
   buffiter A chunk maxc factor xs = Raise ValueError.
 Proof. exact buffiter_bad_factor. Qed.
@@ -232,8 +260,8 @@ Qed.
 Print Assumptions c02_tie_configurations.
 
 (* ---- non-vacuity ---- *)
-Definition F_pinned : facts := {| f_getattr_repeats := true; f_ctxexit_delivers := false; f_reflects := false |}.
-Definition F_repaired : facts := {| f_getattr_repeats := false; f_ctxexit_delivers := true; f_reflects := true |}.
+Definition F_pinned : facts := {| f_getattr_repeats := true; f_ctxexit_delivers := false; f_ctxexit_base := false; f_reflects := false |}.
+Definition F_repaired : facts := {| f_getattr_repeats := false; f_ctxexit_delivers := true; f_ctxexit_base := true; f_reflects := true |}.
 (* len(p) on a proxy of a list: a CALLATTR request that the peer answers with getattr(obj, "__len__")() *)
 Example ex_route_len : route ["__len__"; "__getitem__"; "append"] (OSpecial "__len__" 0 [])
   = RSend {| rq_handler := "HANDLE_CALLATTR"; rq_args := [WStr "__len__"; WTuple []; WKw []] |} WNone.
